@@ -1183,7 +1183,7 @@ SDcreate(int32       fid,  /* IN: file ID */
     }
 
     /* create a handle we can give back to the user */
-    sdsid = (((int32)fid) << 20) + (((int32)SDSTYPE) << 16);
+    sdsid = (((int32)fid & 0xffff) << 20) + (((int32)SDSTYPE) << 16);
     sdsid += handle->vars->count - 1;
 
     /* make sure it gets reflected in the file */
